@@ -324,31 +324,34 @@ theorem Grows_modPara2 (s : Sess) (pp1 pp2 : PPath) (f1 f2 : Para → Para × Li
     Grows s { s with doc := modPara (modPara s.doc pp1 f1) pp2 f2 } :=
   (Grows_modPara s pp1 f1 h1).trans (Grows_modPara { s with doc := modPara s.doc pp1 f1 } pp2 f2 h2)
 
-theorem Grows_replaceTargets (s : Sess) (targets : List RunRef) (firstT lastT : RunRef) (op : EOp) (newText : Str)
-    (comment : Option Str) : Grows s (replaceTargets s targets firstT lastT op newText comment) := by
+theorem Grows_retireTargets (ts : List RunRef) : ∀ st : Retired, Grows st.s (retireTargets st ts).s := by
+  induction ts with
+  | nil => intro st; exact Grows.refl _
+  | cons t rest ih =>
+    intro st
+    simp only [retireTargets]
+    split
+    · refine Grows.trans ?_ (ih _)
+      exact Grows_modPara _ _ _ (fun p => ⟨rfl, rfl⟩)
+    · refine Grows.trans ?_ (ih _)
+      exact Grows_trackDelete _ _
+
+theorem Grows_replaceTargets (s : Sess) (targets : List RunRef) (lastT : RunRef) (op : EOp) (newText : Str)
+    (comment : Option Str) : Grows s (replaceTargets s targets lastT op newText comment) := by
   unfold replaceTargets
   simp only
-  have hd := Grows_foldl_trackDelete targets s
-  split
-  · split
-    · exact hd
-    · split
-      · exact (hd.trans (Grows_addComment _ _ _)).trans (Grows_modPara _ _ _ (fun p => ⟨rfl, rfl⟩))
-      · exact (hd.trans (Grows_addComment _ _ _)).trans
-          (Grows_modPara2 _ _ _ _ _ (fun p => ⟨rfl, rfl⟩) (fun p => ⟨rfl, rfl⟩))
-  · split
-    · exact hd
-    · split
-      · exact hd
-      · split
-        · exact (hd.trans (Grows_trackInsert _ _ _ _ _ _ _)).trans (Grows_modPara _ _ _ (fun p => ⟨rfl, rfl⟩))
-        · split
-          · split
-            · exact ((hd.trans (Grows_trackInsert _ _ _ _ _ _ _)).trans (Grows_addComment _ _ _)).trans
-                (Grows_modPara _ _ _ (fun p => ⟨rfl, rfl⟩))
-            · exact ((hd.trans (Grows_trackInsert _ _ _ _ _ _ _)).trans (Grows_addComment _ _ _)).trans
-                (Grows_modPara2 _ _ _ _ _ (fun p => ⟨rfl, rfl⟩) (fun p => ⟨rfl, rfl⟩))
-          · exact (hd.trans (Grows_trackInsert _ _ _ _ _ _ _)).trans (Grows_modPara _ _ _ (fun p => ⟨rfl, rfl⟩))
+  have hd : Grows s (retireTargets { s := s } targets).s := Grows_retireTargets targets { s := s }
+  repeat' first
+    | exact hd
+    | exact (hd.trans (Grows_addComment _ _ _)).trans (Grows_modPara _ _ _ (fun p => ⟨rfl, rfl⟩))
+    | exact (hd.trans (Grows_addComment _ _ _)).trans
+        (Grows_modPara2 _ _ _ _ _ (fun p => ⟨rfl, rfl⟩) (fun p => ⟨rfl, rfl⟩))
+    | exact (hd.trans (Grows_trackInsert _ _ _ _ _ _ _)).trans (Grows_modPara _ _ _ (fun p => ⟨rfl, rfl⟩))
+    | exact ((hd.trans (Grows_trackInsert _ _ _ _ _ _ _)).trans (Grows_addComment _ _ _)).trans
+        (Grows_modPara _ _ _ (fun p => ⟨rfl, rfl⟩))
+    | exact ((hd.trans (Grows_trackInsert _ _ _ _ _ _ _)).trans (Grows_addComment _ _ _)).trans
+        (Grows_modPara2 _ _ _ _ _ (fun p => ⟨rfl, rfl⟩) (fun p => ⟨rfl, rfl⟩))
+    | split
 
 end Adeu.Doc
 
@@ -397,7 +400,7 @@ theorem Grows_applyReplace (s : Sess) (spans : List OSpan) (op : EOp) (start len
   simp only
   have hr := Grows_of_frame (resolveRuns_frame s spans start (start + len))
   split
-  · exact hr.trans (Grows_replaceTargets _ _ _ _ _ _ _)
+  · exact hr.trans (Grows_replaceTargets _ _ _ _ _ _)
   · exact hr
 
 theorem Grows_applyIndexed (s : Sess) (clean : Bool) (start len : Nat) (newText : Str) (comment : Option Str)
@@ -412,23 +415,35 @@ theorem Grows_applyIndexed (s : Sess) (clean : Bool) (start len : Nat) (newText 
       · exact Grows_applyInsertion _ _ _ _ _
       · exact Grows_applyReplace _ _ _ _ _ _ _
 
-theorem Grows_heuristicDirect (s : Sess) (m : HMatch) (e : HEdit) : Grows s (heuristicDirect s m e).1 := by
-  unfold heuristicDirect
-  simp only
-  repeat' first
-    | exact Grows.refl s
-    | exact Grows_applyIndexed _ _ _ _ _ _ _
-    | split
-
-theorem Grows_nestedProxy (s : Sess) (m : HMatch) (e : HEdit) (r : Sess × Bool) (hr : nestedProxy s m e = some r) :
-    Grows s r.1 := by
-  unfold nestedProxy at hr
+theorem Grows_nestedProxyAt (s : Sess) (clean : Bool) (start len : Nat) (new : Str) (comment : Option Str)
+    (r : Sess × Bool) (hr : nestedProxyAt s clean start len new comment = some r) : Grows s r.1 := by
+  unfold nestedProxyAt at hr
   simp only at hr
   split at hr
   · split at hr
     · injection hr with hr; subst hr; exact Grows_applyIndexed _ _ _ _ _ _ _
     · cases hr
   · cases hr
+
+theorem Grows_heuristicDirect (s : Sess) (m : HMatch) (e : HEdit) : Grows s (heuristicDirect s m e).1 := by
+  unfold heuristicDirect
+  simp only
+  split
+  · exact Grows.refl s
+  · split
+    · exact Grows_applyIndexed _ _ _ _ _ _ _
+    · split
+      · exact Grows.refl s
+      · split
+        · rename_i r hr
+          split at hr
+          · cases hr
+          · exact Grows_nestedProxyAt _ _ _ _ _ _ r hr
+        · exact Grows_applyIndexed _ _ _ _ _ _ _
+
+theorem Grows_nestedProxy (s : Sess) (m : HMatch) (e : HEdit) (r : Sess × Bool) (hr : nestedProxy s m e = some r) :
+    Grows s r.1 :=
+  Grows_nestedProxyAt s m.clean m.start m.len e.new e.comment r hr
 
 theorem Grows_applyHeuristic (s : Sess) (occ : List (Nat × Nat)) (e : HEdit) : Grows s (applyHeuristic s occ e).1 := by
   unfold applyHeuristic
